@@ -25,6 +25,7 @@ func init() {
 		Rule: "Dawgs of: ALL 2^15 subsets of the words of length <= 3 over {a,b} (exhaustive; thorough adds all 2^13 subsets of the words of length <= 2 over {a,b,c}), the fixed families (a node with k children for k in {0,1,2,26,127,128,129,255,256} at the root, below a prefix, with the empty word, with distinct tails, with final children; unary words giving 127/128/129 and 255/256/257 nodes and ids), the boundary table (all binary words of length 16 = 65536 words, minus one, plus one word created last so that ids beyond 65535 survive; 126..129 and 254..257 words; wide fans over distinct tails so that link targets have indices beyond 127 and 255; two levels of wide fans; thorough: all two-byte words in 3 nodes and 65535/65536/65537 nodes), and seeded sets over alphabets of 1..256 bytes with up to 5000 words. " +
 			"Receivers that already hold an automaton: ALL ordered pairs (old, new) of the 64 subsets of {\"\",a,b,aa,ab,ba} and all ordered pairs of 16 contrasting fixed sets (with/without the empty word, 1..301 nodes, fan-out 0..256, 0..512 words), and consecutive seeded sets, each in 5 ways (receiver built by New; receiver decoded before; the same data decoded twice in a row; two values through ONE gob Encoder/Decoder pair into the same variable; the same into the same non-nil pointer), judged exactly like a decode into a fresh receiver, plus a check that an earlier copy of the same bytes is not affected. " +
 			"Caller-owned bytes: after GobDecode(b) the caller overwrites b (with '#', with zeros, with another encoding of the same length) and only then the decoded Dawg is compared; several records are decoded through ONE reused read buffer and all decoded Dawgs are checked afterwards; the slice returned by GobEncode is overwritten (spare capacity included) and the Dawg and its next encoding must be unaffected, and an earlier result must survive later encodings of larger and smaller automata; several Dawgs through one gob Encoder / Decoder pair whose buffers are Reset and refilled between messages, all checked at the end (the 64 subsets of a 6-word universe, the 1024 subsets of a 10-word universe, the contrasting fixed sets, batches of 8 seeded sets). " +
+			"Dawgs of a Builder that is used again: ONE Builder value builds several Dawgs in a row (C12's life-cycle scripts) and EVERY Dawg is round-tripped right after its Finish and, for part of the scripts, again after the last Initialise: ALL ordered pairs of the 64 subsets of {\"\",a,aa,ab,b,ba} with the 8 ways from one build to the next in turn (Finish+Initialise; Initialise twice; an abandoned partial build; a build abandoned after a rejected Add; Finish without any word; the Builder value copied by assignment before / after Initialise; rejected Adds in the second build) and the 4 origins of the Builder in turn (new, copy of a zero value, initialised, copy of an initialised value), chains through 19 contrasting fixed sets, seeded scripts of 2..5 builds over related word sets (thorough: all ordered pairs of the 128 subsets of the words of length <= 2 over {a,b}, chains from every start). An original with two nodes of the same id whose words and ranks are right is still round-tripped and the copy is judged against the model. " +
 			"Each Dawg is encoded with GobEncode, decoded with GobDecode into a fresh Dawg (and for every 3rd case into a Dawg that already holds other words) and sent through encoding/gob; each copy is compared with the reference model (NumberOfWords, Lookup rank of every member, non-members, structure walk with numWords, node count by accessor and by header), with the node graph of the original (up to the numbering of the ids, which is only recorded), on seeded searches, and re-encoded (bytes must be identical). " +
 			"non-trivial = a set with >= 2 words whose minimal automaton has fewer nodes than its trie (links to shared nodes are what the index table of the encoding is for); distinct = by construction (exhaustive) / hash of the word list",
 		Assumptions: []string{
@@ -35,7 +36,8 @@ func init() {
 		Run:            run,
 		MinEvaluations: map[string]int{"quick": 2000000, "thorough": 10000000},
 		MinNontrivial:  map[string]int{"quick": 20000, "thorough": 50000},
-		RequiredObs: []string{"owned:decode_input_overwritten-with-#", "owned:decode_input_overwritten-with-zeros", "owned:decode_input_overwritten-with-another-encoding", "owned:another_encoding_of_the_same_length_used", "owned:read_buffer_sequences", "owned:encode_results_overwritten", "owned:encode_then_other_encodes", "owned:gob_stream_sequences", "used:receiver_built_by_New", "used:receiver_decoded_before", "used:decoded_twice_in_a_row", "used:one_gob_stream_same_variable", "used:one_gob_stream_same_pointer", "used:old_root_final_new_root_not", "used:old_root_not_final_new_root_final", "used:old_has_links_new_root_has_none", "used:old_more_nodes", "used:old_fewer_nodes", "used:old_wider_fanout", "used:old_narrower_fanout", "used:old_more_words", "used:old_fewer_words", "used:earlier_copy_unaffected", "roundtrips:GobDecode", "roundtrips:encoding/gob", "roundtrips:into_used_dawg", "reencodings_identical", "searches_compared",
+		RequiredObs: []string{"owned:decode_input_overwritten-with-#", "owned:decode_input_overwritten-with-zeros", "owned:decode_input_overwritten-with-another-encoding", "owned:another_encoding_of_the_same_length_used", "owned:read_buffer_sequences", "owned:encode_results_overwritten", "owned:encode_then_other_encodes", "owned:gob_stream_sequences", "used:receiver_built_by_New", "used:receiver_decoded_before", "used:decoded_twice_in_a_row", "used:one_gob_stream_same_variable", "used:one_gob_stream_same_pointer", "used:old_root_final_new_root_not", "used:old_root_not_final_new_root_final", "used:old_has_links_new_root_has_none", "used:old_more_nodes", "used:old_fewer_nodes", "used:old_wider_fanout", "used:old_narrower_fanout", "used:old_more_words", "used:old_fewer_words", "used:earlier_copy_unaffected", "life:scripts_completed", "life:dawgs_of_a_reused_builder_roundtripped", "life:dawgs_of_a_reused_builder_with>=2_words_roundtripped", "life:dawgs_roundtripped_again_after_the_builder_was_used_again", "life:initialise_after_finish", "life:initialise_after_an_abandoned_build", "life:initialise_after_a_rejected_add", "life:initialise_after_finish_of_an_empty_builder", "life:builder_value_copied_by_assignment_between_builds",
+			"roundtrips:GobDecode", "roundtrips:encoding/gob", "roundtrips:into_used_dawg", "reencodings_identical", "searches_compared",
 			"fanout:0", "fanout:1", "fanout:127", "fanout:128", "fanout:129", "fanout:255", "fanout:256",
 			"nodes:127", "nodes:128", "nodes:129", "nodes:255", "nodes:256", "nodes:257", "words:127", "words:128", "words:255", "words:256", "words:65535", "words:65536", "words:65537", "ids>=128", "ids>=65536"},
 	})
@@ -120,15 +122,21 @@ func compareCopyW(c *engine.Ctx, light bool, path, w, callKey string, cp *dawg.D
 		return false
 	}
 	c.Eval(1)
-	diff, sameIDs := dawgx.NodesSameShape(origNodes, nodes)
-	if diff != "" {
-		c.Violation(path+"|node-graph-differs|"+w, det, diff, "the same node graph (finality, numWords, labels, links) as the original")
-		return false
-	}
-	if sameIDs {
-		c.Obs("copies_with_identical_node_ids", 1)
+	if origNodes != nil {
+		diff, sameIDs := dawgx.NodesSameShape(origNodes, nodes)
+		if diff != "" {
+			c.Violation(path+"|node-graph-differs|"+w, det, diff, "the same node graph (finality, numWords, labels, links) as the original")
+			return false
+		}
+		if sameIDs {
+			c.Obs("copies_with_identical_node_ids", 1)
+		} else {
+			c.Obs("copies_with_renumbered_node_ids(documented as preserved; not part of the property, not judged)", 1)
+		}
 	} else {
-		c.Obs("copies_with_renumbered_node_ids(documented as preserved; not part of the property, not judged)", 1)
+		// the dump of the original names links by id and two of its nodes share one: the copy has been compared with the model
+		// (words, ranks, numWords of every node, minimal node count) instead
+		c.Obs("copies_of_originals_with_a_repeated_node_id_compared_with_the_model_only", 1)
 	}
 	b1, err, pi := dawgx.Encode(c, callKey+"|"+path+"|copy", cp)
 	if pi != nil {
@@ -204,18 +212,57 @@ func roundTrip(c *engine.Ctx, workload, callKey string, set *refdawg.Set, alpha 
 		c.Obs("builds_failed_not_judged_here(C12)", 1)
 		return true
 	}
-	probes := refdawg.Probes(set, alpha, rg, 200+set.Len()/4)
+	return roundTripDawg(c, workload, callKey, d, set, alpha, rg, idx, nQueries, light, rtOpts{})
+}
+
+// rtOpts are the options of roundTripDawg for Dawgs that do not come from dawg.New.
+type rtOpts struct {
+	witness string                 // witness part of the violation keys ("": from the set)
+	extra   map[string]interface{} // further entries of the violation detail (how the Dawg was made)
+	skipGob bool                   // leave out the path through encoding/gob
+	probes  int                    // number of probe strings (0: 200 + a quarter of the number of words)
+}
+
+// roundTripDawg is the round-trip check of a Dawg d that is claimed to hold set.
+func roundTripDawg(c *engine.Ctx, workload, callKey string, d *dawg.Dawg, set *refdawg.Set, alpha []byte, rg refdawg.Rand, idx int, nQueries int, light bool, o rtOpts) bool {
+	np := 200 + set.Len()/4
+	if o.probes > 0 {
+		np = o.probes
+	}
+	probes := refdawg.Probes(set, alpha, rg, np)
 	// the original must itself be right, otherwise the case is not C14's
+	repeatedID := false
 	if f, pi, _ := dawgx.FullCheck(c, callKey+"|orig", d, set, dawgx.CheckOpts{Probes: probes, SkipEncode: light}); f != nil || pi != nil {
-		c.Obs("original_already_wrong_not_judged_here(C12)", 1)
-		return true
+		if pi == nil && f.Kind == "structure-duplicate-id" {
+			// NumberOfWords and every Lookup (members and probes) are right - FullCheck judges them before it looks at the
+			// nodes - but two distinct nodes of the automaton carry the same id.  Ids are no part of what the property asks
+			// of d: "for every Dawg d" the decoded copy holds the same words.  The round trip is made and the copy is judged
+			// against the model; only the comparison of the two node dumps (which names links by id) is left out.
+			repeatedID = true
+			c.Obs("originals_with_a_repeated_node_id(round trip still judged: words, ranks, counts, searches)", 1)
+		} else {
+			c.Obs("original_already_wrong_not_judged_here(C12)", 1)
+			return true
+		}
 	}
 	w := witnessOf(set)
+	if o.witness != "" {
+		w = o.witness
+	}
 	_, fan := fanoutBucket(set)
 	det := dawgx.Detail(workload, set, map[string]interface{}{"call": callKey, "max_fanout": fan})
+	for k, v := range o.extra {
+		det[k] = v
+	}
 	nodes0, pi := dawgx.Nodes(c, callKey+"|orig", d)
 	if pi != nil {
 		return true
+	}
+	var err error
+	shape0 := nodes0
+	if repeatedID {
+		shape0 = nil
+		det["two_nodes_of_the_original_carry_the_same_id"] = true
 	}
 	b0, err, pi := dawgx.Encode(c, callKey+"|orig", d)
 	c.Eval(1)
@@ -251,7 +298,7 @@ func roundTrip(c *engine.Ctx, workload, callKey string, set *refdawg.Set, alpha 
 		c.Violation("GobDecode|modified-its-input|"+w, det, "input bytes changed", "input untouched")
 		return false
 	}
-	if !compareCopy(c, light, "GobDecode", workload, callKey, d1, set, probes, d, nodes0, b0, queries, det) {
+	if !compareCopyW(c, light, "GobDecode", w, callKey, d1, set, probes, d, shape0, b0, queries, det) {
 		return false
 	}
 	c.Obs("roundtrips:GobDecode", 1)
@@ -271,7 +318,7 @@ func roundTrip(c *engine.Ctx, workload, callKey string, set *refdawg.Set, alpha 
 				c.Violation("GobDecode-into-used-dawg|error|"+w, det, err.Error(), "nil")
 				return false
 			}
-			if !compareCopy(c, light, "GobDecode-into-used-dawg", workload, callKey, used, set, probes, d, nodes0, b0, queries[:1], det) {
+			if !compareCopyW(c, light, "GobDecode-into-used-dawg", w, callKey, used, set, probes, d, shape0, b0, queries[:1], det) {
 				return false
 			}
 			c.Obs("roundtrips:into_used_dawg", 1)
@@ -279,6 +326,9 @@ func roundTrip(c *engine.Ctx, workload, callKey string, set *refdawg.Set, alpha 
 	}
 
 	// 3. encoding/gob
+	if o.skipGob {
+		return roundTripEnd(c, callKey, d, set, nodes0, w, det)
+	}
 	var buf bytes.Buffer
 	pi = c.Call(callKey+"|gob.Encode", func() { err = gob.NewEncoder(&buf).Encode(d) })
 	c.Eval(1)
@@ -301,12 +351,16 @@ func roundTrip(c *engine.Ctx, workload, callKey string, set *refdawg.Set, alpha 
 		c.Violation("encoding/gob.Decode|error|"+w, det, err.Error(), "nil")
 		return false
 	}
-	if !compareCopy(c, light, "encoding/gob", workload, callKey, &d2, set, probes, d, nodes0, b0, queries[:1], det) {
+	if !compareCopyW(c, light, "encoding/gob", w, callKey, &d2, set, probes, d, shape0, b0, queries[:1], det) {
 		return false
 	}
 	c.Obs("roundtrips:encoding/gob", 1)
 
-	// the original is untouched by all this
+	return roundTripEnd(c, callKey, d, set, nodes0, w, det)
+}
+
+// roundTripEnd: the original is untouched by all this.
+func roundTripEnd(c *engine.Ctx, callKey string, d *dawg.Dawg, set *refdawg.Set, nodes0 []dawg.VerifNode, w string, det map[string]interface{}) bool {
 	nodesAfter, pi := dawgx.Nodes(c, callKey+"|orig-after", d)
 	c.Eval(1)
 	if pi != nil || dawgx.NodesEqual(nodes0, nodesAfter) != "" {
@@ -562,4 +616,7 @@ func run(c *engine.Ctx) {
 			}
 		})
 	}
+
+	// 6. Dawgs of a Builder that is used for several Dawgs in a row (life.go)
+	lifeCycles(c)
 }
